@@ -187,6 +187,10 @@ def normalise_module(tree):
     k = detabulate(tree)
     if k:
         done.append("%d table-driven forms" % k)
+        for _again in range(3):  # a cell that is itself a lambda calling a table driver
+            defunctionalise(tree)
+            if not detabulate(tree):
+                break
     k = defunctionalise(tree) + more_spellings(tree)
     if k:
         done.append("%d functional forms" % k)
@@ -1822,6 +1826,16 @@ def detabulate(tree):
                     if r is not None and nm.startswith("_") and not any(isinstance(x, ast.Attribute) and x.attr == nm and isinstance(x.ctx, ast.Store) for x in ast.walk(tree)):
                         cls_tables[nm] = r
 
+    # class-level private scalar constants read through self / cls
+    cls_consts = {}
+    for c in ast.walk(tree):
+        if isinstance(c, ast.ClassDef):
+            for st in c.body:
+                if isinstance(st, ast.Assign) and len(st.targets) == 1 and isinstance(st.targets[0], ast.Name) and isinstance(st.value, ast.Constant) and isinstance(st.value.value, str):
+                    nm = st.targets[0].id
+                    if nm.startswith("_") and not nm.startswith("__") and not any(isinstance(x, ast.Attribute) and x.attr == nm and isinstance(x.ctx, ast.Store) for x in ast.walk(tree)) and sum(1 for k in ast.walk(tree) if isinstance(k, ast.ClassDef) for s2 in k.body if isinstance(s2, ast.Assign) and any(isinstance(t, ast.Name) and t.id == nm for t in s2.targets)) == 1:
+                        cls_consts[nm] = st.value
+
     def table(e, local):
         if isinstance(e, ast.Name):
             if e.id in local:
@@ -1840,6 +1854,17 @@ def detabulate(tree):
         """{name: expr} for one row, None when the shapes do not match"""
         if isinstance(target, ast.Name):
             return {target.id: row}
+        if isinstance(target, (ast.Tuple, ast.List)) and isinstance(row, (ast.Tuple, ast.List)) and sum(isinstance(t, ast.Starred) for t in target.elts) == 1 and isinstance(target.elts[-1], ast.Starred) and isinstance(target.elts[-1].value, ast.Name) and len(row.elts) >= len(target.elts) - 1:
+            # a, *rest = row
+            k = len(target.elts) - 1
+            out = {}
+            for t, r in zip(target.elts[:k], row.elts[:k]):
+                sub = bind(t, r)
+                if sub is None:
+                    return None
+                out.update(sub)
+            out[target.elts[-1].value.id] = ast.Tuple(elts=list(row.elts[k:]), ctx=ast.Load())
+            return out
         if isinstance(target, (ast.Tuple, ast.List)) and isinstance(row, (ast.Tuple, ast.List)) and len(target.elts) == len(row.elts) and not any(isinstance(t, ast.Starred) for t in target.elts):
             out = {}
             for t, r in zip(target.elts, row.elts):
@@ -1931,9 +1956,38 @@ def detabulate(tree):
             return chain
         return None
 
+    # private module-level drivers `def _f(rules, a, b): for x, y in rules: ...` called with a table: read in place
+    drivers = {}
+    for st in tree.body:
+        if isinstance(st, ast.FunctionDef) and st.name.startswith("_") and not st.decorator_list and not st.args.vararg and not st.args.kwarg and not st.args.kwonlyargs and not st.args.defaults:
+            body = [b for b in st.body if not (isinstance(b, ast.Expr) and isinstance(b.value, ast.Constant))]
+            params = [a.arg for a in st.args.args]
+            if body and isinstance(body[0], ast.For) and isinstance(body[0].iter, ast.Name) and body[0].iter.id in params and (len(body) == 1 or (len(body) == 2 and isinstance(body[1], ast.Return))):
+                if not any(isinstance(n, ast.Name) and n.id in params and isinstance(n.ctx, ast.Store) for n in ast.walk(st)):
+                    drivers[st.name] = (params, body)
+
+    def expand_driver(st):
+        if isinstance(st, ast.Return) and isinstance(st.value, ast.Call) and isinstance(st.value.func, ast.Name) and st.value.func.id in drivers and not st.value.keywords:
+            params, body = drivers[st.value.func.id]
+            args = st.value.args
+            if len(args) == len(params) and all(isinstance(a, (ast.Name, ast.Constant)) or (isinstance(a, ast.Attribute) and isinstance(a.value, ast.Name)) for a in args):
+                env = dict(zip(params, args))
+                it = env[body[0].iter.id]
+                if isinstance(it, ast.Name) and it.id in mod_tables:
+                    new = [subst(b, env) for b in body]
+                    if len(body) == 1:
+                        new.append(ast.copy_location(ast.Return(value=ast.Constant(value=None)), st))
+                    return new
+        return None
+
     def do_block(stmts, local, fn):
         out = []
         for st in stmts:
+            exp = expand_driver(st) if fn is not None else None
+            if exp is not None:
+                stats[0] += 1
+                out += do_block(exp, local, fn)
+                continue
             if isinstance(st, ast.Assign) and len(st.targets) == 1 and isinstance(st.targets[0], ast.Name) and fn is not None:
                 r = rows_of(st.value)
                 nm = st.targets[0].id
@@ -2020,6 +2074,15 @@ def detabulate(tree):
                         kws.append(k)
                 node.keywords = kws
                 stats[0] += 1
+            if any(isinstance(a, ast.Starred) and isinstance(a.value, (ast.Tuple, ast.List)) and not any(isinstance(x, ast.Starred) for x in a.value.elts) for a in node.args):
+                args = []
+                for a in node.args:
+                    if isinstance(a, ast.Starred) and isinstance(a.value, (ast.Tuple, ast.List)) and not any(isinstance(x, ast.Starred) for x in a.value.elts):
+                        args += a.value.elts
+                    else:
+                        args.append(a)
+                node.args = args
+                stats[0] += 1
             q = _qual(node.func, imp, set())
             if isinstance(node.func, ast.Name) and node.func.id == "getattr" and len(node.args) == 2 and not node.keywords and isinstance(node.args[1], ast.Constant) and isinstance(node.args[1].value, str) and node.args[1].value.isidentifier():
                 stats[0] += 1
@@ -2040,7 +2103,52 @@ def detabulate(tree):
                 return ast.copy_location(ast.Assign(targets=[ast.Attribute(value=c.args[0], attr=c.args[1].value, ctx=ast.Store())], value=c.args[2]), node)
             return node
 
+    # (lambda a, b, **_: E)(**d) with d = dict(a=x, ...) [; d.update(b=y, ...)] used for nothing else  ->  E[x/a, y/b]
+    for fn in [n for n in ast.walk(tree) if isinstance(n, (ast.FunctionDef, ast.AsyncFunctionDef))]:
+        for st in list(fn.body):
+            if isinstance(st, ast.Assign) and len(st.targets) == 1 and isinstance(st.targets[0], ast.Name) and isinstance(st.value, ast.Call) and isinstance(st.value.func, ast.Name) and st.value.func.id == "dict" and not st.value.args and st.value.keywords and all(k.arg for k in st.value.keywords):
+                d = st.targets[0].id
+                vals = {k.arg: k.value for k in st.value.keywords}
+                uses = [n for n in ast.walk(fn) if isinstance(n, ast.Name) and n.id == d and n is not st.targets[0]]
+                ok_uses = set()
+                lam_calls = []
+                for n in ast.walk(fn):
+                    if isinstance(n, ast.Expr) and isinstance(n.value, ast.Call) and isinstance(n.value.func, ast.Attribute) and n.value.func.attr == "update" and isinstance(n.value.func.value, ast.Name) and n.value.func.value.id == d and not n.value.args and all(k.arg for k in n.value.keywords):
+                        vals.update({k.arg: k.value for k in n.value.keywords})
+                        ok_uses.add(id(n.value.func.value))
+                    if isinstance(n, ast.Call) and isinstance(n.func, ast.Lambda) and not n.args and len(n.keywords) == 1 and n.keywords[0].arg is None and isinstance(n.keywords[0].value, ast.Name) and n.keywords[0].value.id == d:
+                        lam_calls.append(n)
+                        ok_uses.add(id(n.keywords[0].value))
+                if not lam_calls or any(id(u) not in ok_uses for u in uses) or not all(isinstance(v, (ast.Name, ast.Constant)) for v in vals.values()):
+                    continue
+
+                class L(ast.NodeTransformer):
+                    def visit_Call(self, n):
+                        self.generic_visit(n)
+                        if n in lam_calls:
+                            a = n.func.args
+                            names = [x.arg for x in a.args + a.kwonlyargs]
+                            if a.vararg or a.defaults or any(x is not None for x in a.kw_defaults) or not all(x in vals for x in names) or (a.kwarg is None and set(vals) - set(names)):
+                                return n
+                            body = n.func.body
+                            for x in names:
+                                body = _subst_name(body, x, vals[x])
+                            stats[0] += 1
+                            return ast.copy_location(body, n)
+                        return n
+
+                L().visit(fn)
+
     if stats[0]:
+        if cls_consts:
+            class Consts(ast.NodeTransformer):
+                def visit_Attribute(self, node):
+                    self.generic_visit(node)
+                    if isinstance(node.ctx, ast.Load) and isinstance(node.value, ast.Name) and node.value.id in ("self", "cls") and node.attr in cls_consts:
+                        return ast.copy_location(copy.deepcopy(cls_consts[node.attr]), node)
+                    return node
+
+            Consts().visit(tree)
         Tidy().visit(tree)
         ast.fix_missing_locations(tree)
     return stats[0]
